@@ -4,7 +4,7 @@ From Verif Require Import Sx Str Tok.
 From Verif.Gen Require Phases TreeTables.
 From Verif.Spec Require TreeTables Dispatch.
 From Verif.Model Require Import TCdom TC.
-From Verif.Proofs Require Import C01.
+From Verif.Proofs Require Import C01 C01b.
 Import ListNotations.
 Local Open Scope N_scope.
 
@@ -49,6 +49,29 @@ Proof. exact dispatch_tables_equal. Qed.
 Theorem c01_scope_walk_always_stops : forall n v s x,
   In x (opn s) -> name_tuple s x = html_tuple -> scope_asserts n v s = false.
 Proof. exact scope_never_asserts_with_root. Qed.
+
+(* ... and it means what the standard says: "has an element in scope" is true exactly when, reading the stack from
+   the current node down, an HTML element with the target name comes before any element of the scope's stop list
+   (for the select scope: before any element NOT on its list) *)
+Theorem c01_in_scope_meaning : forall n v s,
+  in_scope_str n v s = true <->
+  exists pre x post, rev (opn s) = pre ++ x :: post /\ is_html_named s n x = true /\
+    forall y, In y pre -> is_html_named s n y = false /\
+                          xorb (snd (scope_set v)) (mem_pair (name_tuple s y) (fst (scope_set v))) = false.
+Proof. exact in_scope_meaning. Qed.
+
+(* "clear the stack back to a table / table body / table row context" (as repaired in /repo: only HTML elements
+   stop it): with an HTML-namespace element of one of the stop names on the stack -- the root html element always
+   is -- the loop never indexes an empty stack, changes nothing but the stack, and leaves exactly the elements
+   up to the topmost such element.  (Before the repair the loop stopped at foreign namesakes: the cause of a
+   non-terminating parse and of an assertion failure, see DESIGN R1.7.) *)
+Theorem c01_clear_stack_is_total : forall names s r,
+  In r (opn s) -> ens (d s) r = htmlns s -> name_in (ename (d s) r) names = true ->
+  crash (pop_while_not_html names s) = crash s /\ d (pop_while_not_html names s) = d s /\
+  exists k y, opn (pop_while_not_html names s) = firstn (Datatypes.S k) (opn s) /\ nth_error (opn s) k = Some y /\
+              stops names s y = true /\ forall z, In z (skipn (Datatypes.S k) (opn s)) -> stops names s z = false.
+Proof. exact clear_stack_total. Qed.
+
 
 (* PARTIAL.  That the implementation computes the same tree as TC is decided on every run by parsing generated
    markup with the real parser (DOM builder, document and fragment mode with 49 containers, scripting on/off,
